@@ -9,7 +9,7 @@ shutil.copy(f'{src}/patch.diff', f'{dst}/patch.diff')
 shutil.copy(f'{src}/demo.py', f'{dst}/demo.py')
 notes = open(f'{src}/NOTES.md').read() if os.path.exists(f'{src}/NOTES.md') else ''
 json.dump({'breaks_property': sid[:3],
-           'source': 'independent sub-agent (fourth wave) given only the property text, a scratch worktree and one-line descriptions of the three earlier seeded changes to avoid',
+           'source': 'independent sub-agent (fourth or fifth wave) given only the property text, a scratch worktree and one-line descriptions of the earlier seeded changes to avoid',
            'what': what, 'needs_to_manifest': notes[:3000],
            'confirmed': 'tools/eval_seed.sh: patch applied in a scratch worktree of /repo; pinned suite: 244 passed with the change; demo.py exits 1 with the change and 0 without; ./check <id> --tier quick run against the worktree (PYTRS_REPO)',
            'detection': detection}, open(f'{dst}/meta.json', 'w'), indent=1, ensure_ascii=False)
